@@ -96,6 +96,8 @@ class Job:
         self.extra = list(extra)
         self.libs = list(libs)
         self.extra_srcs = list(extra_srcs)
+        self.c_srcs = [x for x in self.extra_srcs if x.endswith('.c')]
+        self.extra_srcs = [x for x in self.extra_srcs if not x.endswith('.c')]
         self.autodetect = autodetect
         self.raw_flags = raw_flags
         self.syntax_only = syntax_only
@@ -120,13 +122,14 @@ class Job:
             c += configs.defines(self.cfg) + configs.flags(self.cfg)
         v = list(VARIANT_FLAGS[self.variant]) if self.cflags_override is None else list(self.cflags_override)
         if self.compiler.startswith('clang'):
-            v = [f for f in v if f != '-frounding-math']
+            # clang 14 accepts -frounding-math; without it clang folds/expands FP code assuming round-to-nearest
             if self.variant == 'san':
                 v.append('-fno-sanitize=object-size')
         c += v
         c += ['-DVK_PART=%d' % self.part, '-DVK_CFG="%s"' % configs.name(self.cfg)]
         c += self.extra
         c += [os.path.join(HARNESS, self.src)] + [os.path.join(HARNESS, s) for s in self.extra_srcs]
+        c += [os.path.join(os.path.dirname(out), os.path.basename(s) + '.o') for s in self.c_srcs] if out != '@OUT@' else ['C:' + s for s in self.c_srcs]
         if self.syntax_only:
             c += ['-fsyntax-only']
         else:
@@ -163,6 +166,9 @@ def build(job, force=False):
     os.makedirs(d, exist_ok=True)
     t0 = time.time()
     cmd = job.cmd(exe)
+    for cs in job.c_srcs:   # C translation units (malloc interposers) are compiled as C
+        subprocess.run(['gcc', '-O2', '-c', os.path.join(HARNESS, cs), '-o', os.path.join(d, os.path.basename(cs) + '.o')],
+                       stdout=subprocess.PIPE, stderr=subprocess.STDOUT, cwd=d)
     try:
         p = subprocess.run(cmd, stdout=subprocess.PIPE, stderr=subprocess.STDOUT, timeout=1800,
                            cwd=d)
